@@ -485,6 +485,28 @@ class Worlds(object):
         v = ex.var_of(l)
         if v is not None:
             self.grow(v, rw)
+            return
+        # X[i].member = v / X.member = v / it->member = v: the aggregate (and the container it lives in) carries the element world
+        if l.k == 'MemberExpr' and l.c and (l.decl or {}).get('kind') == 'field':
+            root = l
+            hops = 0
+            while hops < 6:
+                hops += 1
+                r = root.strip_all()
+                if r.k == 'MemberExpr' and r.c and r.c[0].strip_all().k != 'CXXThisExpr':
+                    root = r.c[0]
+                elif r.k == 'CXXOperatorCallExpr' and r.op in ('[]', '*', '->') and len(r.c) >= 2:
+                    root = r.c[1]
+                elif r.k == 'CXXMemberCallExpr' and r.callee and r.callee['name'] in ('at', 'front', 'back') and r.object_arg() is not None:
+                    root = r.object_arg()
+                elif r.k == 'UnaryOperator' and r.op == '*':
+                    root = r.c[0]
+                else:
+                    break
+            rv = ex.var_of(root)
+            cw = self.W.get(rv) if rv is not None else None
+            if rv is not None and not (isinstance(cw, tuple)) and atom(rw) is not None:
+                self.grow(rv, atom(rw))
 
     # ------------------------------------------------------------------ driver
     def visit_function(self, fn):
